@@ -124,12 +124,24 @@ func (t *Input) CoerceIn(v interface{}) (interface{}, error) {
 					// A copy, the default is the schema's and shared by all
 					// requests while a value of a request can be coerced in
 					// place later on (a list or an object default).
+					dv := copyValue(f.Default)
+					// An object default (also in a list) is a value of the
+					// field's type like one that was given: the defaults of
+					// its own fields are filled in.
+					switch dv.(type) {
+					case map[string]interface{}, []interface{}:
+						if co, _ := f.Type.(InCoercer); co != nil {
+							if cv, err := co.CoerceIn(dv); err == nil {
+								dv = cv
+							}
+						}
+					}
 					if rt != nil {
-						if err := t.reflectSetKey(rv, k, copyValue(f.Default)); err != nil {
+						if err := t.reflectSetKey(rv, k, dv); err != nil {
 							return nil, inErr(err, k)
 						}
 					} else {
-						tv[k] = copyValue(f.Default)
+						tv[k] = dv
 					}
 				} else if _, ok := f.Type.(*NonNull); ok {
 					return nil, fmt.Errorf("%s is required but missing", k)
